@@ -40,6 +40,10 @@ def setup():
     from androguard.core import androconf
     R.logger = NullLogger()
     androconf.logger = NullLogger()
+    androconf.isinstance = sx_isinstance
+    R.isinstance = sx_isinstance
+    androconf.int = sx_int
+    androconf.str = sx_str
     LV = shipped_levels()
 
     def which_dir(text):
